@@ -15,7 +15,7 @@ SPEC = dict(
          "missing carbons/oxygens/rings, divisions by distances) is established by running the real code on the truncations, not by a "
          "theorem; numeric degeneracies (coincident atoms) are outside the generated family.",
     technique="Lean 4 proof (state-independence of line acceptance, induction over sublists; filterMap/filter commutation) + fault enumeration on the real pipeline",
-    lean=["Propka.Props.C12"],
+    lean=["Propka.Props.C12", "Propka.Props.Program"],
     rule="library structures and test files x deletions: every single atom of a residue in context (thorough: all; quick: sampled), whole "
          "side chains, backbone atoms, termini, ligand atoms, whole residues, random subsets of 1-30 %; non-trivial = a deletion that "
          "removes at least one atom and leaves at least one ionizable site",
